@@ -58,6 +58,11 @@ func c07Scripts(rng *lab.RNG) []c07Script {
 		add(fmt.Sprintf("single-ttl%d", t), set(0, t), c07Obs(t/3, t/2, t/2+1), c07Obs(t+5+j(), t+40, t+300, t+700+j(), t+1300, t+2300))
 	}
 	add("no-ttl", set(0, 0), c07Obs(5, 50, 600, 1700))
+	// ttls of centuries ("forever" sentinels): now+ttl still fits the clock, so the item must simply stay
+	const y250ms = 250 * 365 * 24 * 3600 * 1000
+	add("huge-ttl", set(0, y250ms), c07Obs(5, 50, 600, 1700))
+	add("huge-ttl-over-short", set(0, 40), set(20, y250ms), c07Obs(30, 100, 600, 1700))
+	add("huge-ttl-over-none", set(0, 0), set(20, y250ms), c07Obs(30, 100, 600, 1700))
 	add("negative-ttl", set(0, 300), set(20, -50), c07Obs(40, 60, 100), c07Obs(330+j(), 900))
 	add("negative-ttl-on-empty", set(0, -1), c07Obs(10, 30, 50))
 	add("longer", set(0, 100), set(30+j(), 500), c07Obs(140, 200, 300), c07Obs(560+j(), 700, 1700))
@@ -96,7 +101,7 @@ func runC07(c *Ctx) {
 					steps := append([]c07Step(nil), sc.Steps...)
 					for i := range steps {
 						steps[i].AtMs = int(float64(steps[i].AtMs) * scale)
-						if steps[i].TTL > 0 {
+						if steps[i].TTL > 0 && steps[i].TTL < 1<<40 { // the century-sized ttls are not scaled (they must fit a Duration)
 							steps[i].TTL = max(1, int(float64(steps[i].TTL)*scale))
 						}
 					}
